@@ -286,6 +286,7 @@ const LADDERS: &[&str] = &[
     "loop-count", "for-list", "var-growth", "defaults-count", "comment-length", "cdata-length", "entity-count", "class-count", "surround-list", "connector-count", "deep-unclosed", "many-roots",
     "var-paren-indirection", "clip-chain", "var-doubling-groups", "var-doubling-reuse", "var-sum-tree", "nest-g-lifted-limit", "loop-defaults",
     "waiting-many-vars", "waiting-then-comments", "waiting-many", "points-references", "retry-growing-id", "specs-double-reuse",
+    "entity-empty-fanout", "entity-many-declared", "waiting-then-vars", "indent-repeated", "points-box-referenced",
 ];
 
 fn rungs(tier: Tier) -> Vec<u64> {
@@ -450,6 +451,33 @@ fn ladder_doc(family: &str, n: u64) -> Option<(String, u64)> {
         "points-references" => (format!("<svg><rect id=\"a\" wh=\"5\"/><polyline points=\"{}\"/><path d=\"M {}\"/></svg>", rep("#a@c ", n_us), rep("#a@t:2.5 ", n_us)), 3),
         // a group which fails for good while an id inside it takes a new value at every attempt
         "retry-growing-id" => (format!("<svg><g id=\"t\"><rect wh=\"1\"/></g><rect id=\"b\" wh=\"1\"/>{}<g><rect id=\"a\" width=\"{{{{#b~w + 1}}}}\" height=\"1\"/><rect id=\"b\" width=\"{{{{#a~w}}}}\" height=\"1\"/><reuse id=\"r{{{{#b~w}}}}\" href=\"#t\"/><rect xy=\"#nope\" wh=\"1\"/></g></svg>", rep("<rect wh=\"1\"/>", n_us.min(64))), n.min(64) + 10),
+        // fifth review round
+        // entities whose replacement text is empty, each ten references to the previous one: 10^k steps for k declarations
+        "entity-empty-fanout" => {
+            // (at most 15 levels: the nesting of entities is itself bounded at 16)
+            let k = n_us.min(15);
+            let mut s = String::from("<!DOCTYPE svg [<!ENTITY e0 \"\">");
+            for i in 1..=k {
+                s.push_str(&format!("<!ENTITY e{i} \"{}\">", format!("&e{};", i - 1).repeat(10)));
+            }
+            s.push_str(&format!("]><svg><text>&e{k};</text><rect wh=\"1\"/></svg>"));
+            (s, 10 * k as u64 + 3)
+        }
+        // n declared entities and n references to them
+        "entity-many-declared" => {
+            let decls: String = (0..n_us).map(|i| format!("<!ENTITY a{i} \"{i}\">")).collect();
+            let refs: String = (0..n_us).map(|i| format!("&a{i}; ")).collect();
+            (format!("<!DOCTYPE svg [{decls}]><svg><text>{refs}</text></svg>"), 2 * n + 3)
+        }
+        // one element which waits, then n variable assignments
+        "waiting-then-vars" => {
+            let vars: String = (0..n_us).map(|i| format!("<var v{i}=\"1\"/>")).collect();
+            (format!("<svg><rect xy=\"#z\" wh=\"1\"/>{vars}<rect id=\"z\" wh=\"1\"/></svg>"), n + 3)
+        }
+        // a long indentation before n elements with text on the same line
+        "indent-repeated" => (format!("<svg>\n{}{}</svg>", " ".repeat(n_us), rep("<rect wh=\"1\" text=\"a\"/>", n_us)), 2 * n + 3),
+        // a polyline of n points referenced n times
+        "points-box-referenced" => (format!("<svg><polyline id=\"p\" points=\"{}\"/>{}</svg>", rep("1 2 ", n_us), rep("<rect xy=\"#p@tl\" wh=\"1\"/>", n_us)), 2 * n + 3),
         // templates in <specs> which each reuse the previous one twice: 2^k instances for 2k elements
         "specs-double-reuse" => {
             let k = n_us.min(40);
